@@ -13,7 +13,8 @@ MaxOf(q) == CHOOSE v \in { q[i] : i \in 1..Len(q) } : \A i \in 1..Len(q) : q[i] 
 OutlinesMatchSizes == \A n \in DOMAIN Sizes : Sizes[n] = <<MaxOf(Outlines[n].x), MaxOf(Outlines[n].y)>>
 Sides == {"Left", "Right", "Top", "Bottom"}
 AlignsFor(side) == IF side \in {"Left", "Right"} THEN {"Top", "Bottom"} ELSE {"Left", "Right"}
-Seps == { [k |-> "none"], [k |-> "pitches", n |-> 3], [k |-> "sizeof", cell |-> "s"] }
+\* (a separation in primitive pitches is any integer: a negative one makes the boxes overlap by that much)
+Seps == { [k |-> "none"], [k |-> "pitches", n |-> 3], [k |-> "sizeof", cell |-> "s"], [k |-> "pitches", n |-> -2] }
 Refl == BOOLEAN \X BOOLEAN
 Abs(xy) == [k |-> "abs", xy |-> xy]
 Rel(to, side, align, sep) == [k |-> "rel", to |-> to, side |-> side, align |-> align, sep |-> sep]
